@@ -542,7 +542,8 @@ class Licensing(boolean.BooleanAlgebra):
                 strict=strict,
                 simple=simple,
             ))
-            expression = super(Licensing, self).parse(tokens)
+            expression = super(Licensing, self).parse(
+                check_tokens_sequence(tokens))
 
         except ParseError as e:
             raise ExpressionParseError(
@@ -873,6 +874,44 @@ def build_spdx_licensing(license_index):
         and not l.get('is_deprecated', False)
     ]
     return load_licensing_from_license_index(lics)
+
+
+def check_tokens_sequence(tokens):
+    """
+    Yield each of the ``tokens`` 3-tuple of (token, token string, position)
+    unchanged. Raise a ParseError on the invalid sequences that the boolean
+    parser does not detect: an operator or a closing parens right after an
+    opening parens and a symbol right after a closing parens.
+    """
+    previous = None
+    for token in tokens:
+        token_obj, token_string, position = token
+        if isinstance(token_obj, BaseSymbol):
+            current = TOKEN_SYMBOL
+        else:
+            current = token_obj
+
+        if (
+            previous == TOKEN_LPAR
+            and current in (TOKEN_AND, TOKEN_OR, TOKEN_RPAR)
+        ):
+            raise ParseError(
+                token_type=current,
+                token_string=token_string,
+                position=position,
+                error_code=PARSE_INVALID_NESTING,
+            )
+
+        if previous == TOKEN_RPAR and current == TOKEN_SYMBOL:
+            raise ParseError(
+                token_type=current,
+                token_string=token_string,
+                position=position,
+                error_code=PARSE_INVALID_SYMBOL_SEQUENCE,
+            )
+
+        previous = current
+        yield token
 
 
 def build_symbols_from_unknown_tokens(tokens):
